@@ -626,6 +626,9 @@ def run(run, model):
     run.try_rule(r04_22, model)
     run.try_rule(r04_23, model)
     run.try_rule(r04_24, model)
+    # an unbalanced event stream makes the tree builder panic on the input that triggers it (shared with C12 R12.11)
+    from rules import c12 as _c12
+    run.try_rule(_c12.r12_11, model)
     run.try_rule(r04_7, model)
     run.try_rule(r04_8, model)
     run.try_rule(r04_10, model, an)
